@@ -12,6 +12,7 @@ import z3
 
 from mirsym.values import *
 from mirsym import executor as X
+from mirsym.executor import NOT_HANDLED, DIVERGE
 from mirsym.models import StrV, ok, err, as_str
 
 NUM = 255
@@ -39,6 +40,10 @@ class Vocab:
 
 
 VOCAB = Vocab()
+
+
+TOK_LEN = z3.Function('token_byte_length', z3.BitVecSort(8), z3.BitVecSort(NUMW), z3.BitVecSort(64))
+TOK_ASCII = z3.Function('token_is_ascii', z3.BitVecSort(8), z3.BitVecSort(NUMW), z3.BoolSort())
 
 
 class TokV:
@@ -72,6 +77,12 @@ class TokV:
 
     def is_empty_model(self, ctx):
         return False     # split_whitespace never yields an empty word
+
+    def len_model(self, ctx):
+        # byte length of the word: an uninterpreted function of the word, 1 .. 65535 (a line is far shorter: stated bound)
+        n = TOK_LEN(bv(self.kind), bv(self.num))
+        ctx.ex.assume(z3.And(z3.UGE(n, 1), z3.ULE(n, 65535)))
+        return n
 
     def length(self):
         raise Unsupported('length of an abstract token')
@@ -137,6 +148,96 @@ def install(ex):
     def fmt_format(ctx, args):
         return AbsStr(False, 'format!')
     ex.model(r'^std::fmt::format$', fmt_format)
+
+    # a String built piecewise (with_capacity / write! / push_str / push): only its emptiness is tracked
+    def abs_of(ctx, v):
+        v = as_str(ctx, v) if not isinstance(v, (AbsStr, StrV, TokV)) else v
+        if isinstance(v, AbsStr):
+            return v
+        if isinstance(v, StrV):
+            return AbsStr(len(v.s) == 0, 'literal')
+        if isinstance(v, TokV):
+            return AbsStr(False, 'token')
+        if hasattr(v, 'empty'):
+            return AbsStr(v.empty, 'choice')
+        raise Unsupported('abstract string of %r' % (v,))
+    ex.model(r'^std::string::String::with_capacity$', lambda ctx, n: AbsStr(True, 'with_capacity'))
+    wctr = [0]
+
+    def string_write_fmt(ctx, p, args):
+        wctr[0] += 1
+        cur = abs_of(ctx, ctx.deref(p))
+        # what is written may be empty (e.g. "{}" of an empty string): emptiness stays only if it was empty and nothing came
+        ctx.write(p, AbsStr(b_and(cur.empty, z3.Bool('write_%d_wrote_nothing' % wctr[0])), 'write!'))
+        return Enum(0, {0: (UNIT,)})
+    ex.model(r'^<std::string::String as std::fmt::Write>::write_fmt$', string_write_fmt)
+    ex.model(r'^std::fmt::Write::write_fmt::<std::string::String>$', string_write_fmt)
+
+    def string_push_str(ctx, p, s2):
+        cur = ctx.deref(p)
+        if isinstance(cur, StrV) and isinstance(as_str(ctx, s2), StrV):
+            return NOT_HANDLED
+        ctx.write(p, AbsStr(b_and(abs_of(ctx, cur).empty, abs_of(ctx, s2).empty), 'push_str'))
+        return UNIT
+    ex.model(r'^std::string::String::push_str$', string_push_str)
+
+    def string_push(ctx, p, c):
+        cur = ctx.deref(p)
+        if isinstance(cur, StrV) and isinstance(c, CI):
+            return NOT_HANDLED
+        ctx.write(p, AbsStr(False, 'push'))
+        return UNIT
+    ex.model(r'^std::string::String::push$', string_push)
+
+    def str_index_range_to(ctx, s_, r):
+        # &lit[..n] with a symbolic n: a prefix, empty iff n == 0 (n > len panics)
+        v = as_str(ctx, s_)
+        n = r[0] if isinstance(r, tuple) else r
+        if isinstance(v, StrV) and isinstance(n, CI):
+            return NOT_HANDLED
+        if not isinstance(v, StrV):
+            raise Unsupported('range index of %r' % (v,))
+        if not ctx.panic_if(ctx.ex.binop('Gt', n, CI(len(v.s.encode()), 64), 'usize'), 'byte index out of bounds of the string'):
+            return DIVERGE
+        return AbsStr(ctx.ex.binop('Eq', n, CI(0, 64), 'usize'), 'prefix')
+    ex.model(r'^core::str::traits::<impl std::ops::Index<std::ops::RangeTo<usize>> for str>::index$', str_index_range_to)
+    ex.model(r'^<str as std::ops::Index<std::ops::RangeTo<usize>>>::index$', str_index_range_to)
+
+    # byte-level handling of a word that only exists as an abstract token: its bytes stay opaque, what is built from them is a
+    # String of which emptiness is tracked
+    def tok_is_ascii(ctx, s_):
+        v = as_str(ctx, s_)
+        if not isinstance(v, TokV):
+            return NOT_HANDLED
+        return TOK_ASCII(bv(v.kind), bv(v.num))
+    ex.model(r'^core::str::<impl str>::is_ascii$', tok_is_ascii)
+
+    def tok_bytes(ctx, s_):
+        v = as_str(ctx, s_)
+        if not isinstance(v, TokV):
+            return NOT_HANDLED
+        return Opaque('bytes-of-a-token', False)
+    ex.model(r'^core::str::<impl str>::(bytes|chars)$', tok_bytes)
+
+    def opaque_adaptor(ctx, it, *a):
+        if isinstance(it, Opaque) and it.tag == 'bytes-of-a-token':
+            return it
+        return NOT_HANDLED
+    ex.model(r'^<std::str::(Bytes|Chars)(<.*>)? as std::iter::Iterator>::(map|filter|copied|cloned)(::<.*>)?$', opaque_adaptor)
+    ex.model(r'^<std::iter::(Map|Filter|Copied|Cloned)<std::str::(Bytes|Chars).* as std::iter::(Iterator|IntoIterator)>::(map|filter|copied|cloned|into_iter)(::<.*>)?$', opaque_adaptor)
+
+    def string_extend(ctx, p, it):
+        cur = abs_of(ctx, ctx.deref(p))
+        if isinstance(it, Opaque) and it.tag == 'bytes-of-a-token':
+            ctx.write(p, AbsStr(False, 'extend'))        # a word is never empty
+            return UNIT
+        if isinstance(ctx.deref(p), StrV):
+            return NOT_HANDLED
+        from mirsym.models_extra import _ents, _as_iter
+        gs = [g for g, _ in _ents(ctx, _as_iter(ctx, it))]
+        ctx.write(p, AbsStr(b_and(cur.empty, *[b_not(g) for g in gs]), 'extend'))
+        return UNIT
+    ex.model(r'^<std::string::String as std::iter::Extend<.*>>::extend::<.*>$', string_extend)
 
     def string_clone(ctx, p):
         return ctx.deref(p)
